@@ -102,6 +102,7 @@ theorem transitions_authState : Facts.transitions_authState = [("authStateAwaiti
   ("authStateAwaitingRevealSig.receiveDHKeyMessage", ["s"]),
   ("authStateAwaitingRevealSig.receiveRevealSigMessage", ["authStateNone{}", "s"]),
   ("authStateAwaitingRevealSig.receiveSigMessage", ["s"]),
+  ("authStateAwaitingSig.receiveDHCommitMessage", ["s", "s.authStateBase.receiveDHCommitMessage()"]),
   ("authStateAwaitingSig.receiveDHKeyMessage", ["s"]),
   ("authStateAwaitingSig.receiveRevealSigMessage", ["s"]),
   ("authStateAwaitingSig.receiveSigMessage", ["authStateNone{}", "s"]),
